@@ -1045,6 +1045,11 @@ func (r *Resolver) answer(ctx context.Context, req, resp *dns.Msg, parentDS []dn
 		}
 		q := req.Question[0]
 
+		parentDS, err = r.chainStartDS(ctx, parentDS, zone)
+		if err != nil {
+			return nil, err
+		}
+
 		signers := r.findRRSIGSigners(resp, q.Name, true)
 		if len(signers) == 0 {
 			// No RRSIGs in the response. Determine whether missing
@@ -1209,6 +1214,12 @@ func (r *Resolver) authority(ctx context.Context, req, resp *dns.Msg, parentDS [
 			return nil, dnssec.ErrTrustAnchorsUnavailable
 		}
 		q := req.Question[0]
+
+		var err error
+		parentDS, err = r.chainStartDS(ctx, parentDS, zone)
+		if err != nil {
+			return nil, err
+		}
 
 		signers := r.findRRSIGSigners(resp, q.Name, false)
 		if len(signers) == 0 {
@@ -2402,6 +2413,23 @@ func (r *Resolver) findRRSIGSigners(resp *dns.Msg, qname string, inAnswer bool) 
 		return strings.ToLower(dns.Fqdn(signers[i])) < strings.ToLower(dns.Fqdn(signers[j]))
 	})
 	return signers
+}
+
+// chainStartDS returns the DS set a reply from the servers of `zone` is
+// validated against. Below a delegation that is whatever the parent published
+// for the cut, and an empty set there means the delegation was proven
+// insecure. The root has no parent: its chain starts at the configured trust
+// anchors, so an empty set at the root means only that no referral has been
+// followed yet — never that the data may go unvalidated. validateDelegation
+// anchors referrals from the root the same way. Without it a reply obtained
+// directly from the root servers is taken for insecure whenever it is unsigned
+// or names a signer below the root, because findDS looks nothing up starting
+// from an empty set and isZoneSecure reads an empty set as "no DS".
+func (r *Resolver) chainStartDS(ctx context.Context, parentDS []dns.RR, zone string) ([]dns.RR, error) {
+	if len(parentDS) > 0 || zone != rootzone || !r.hasTrustAnchors() {
+		return parentDS, nil
+	}
+	return r.dsRRFromRootKeys(ctx)
 }
 
 func (r *Resolver) findDS(ctx context.Context, signer, qname string, parentDS []dns.RR, cd bool) (dsset []dns.RR, err error) {
